@@ -146,6 +146,75 @@ theorem sorted_by_key (t t' : Table) (on : List String) (hn : t.nrows ≠ 0)
         simpa using this
       · rw [sortIdx_gather]; exact Props.C07.sort_sorted _
 
+/-- **the joined table is sorted**: whenever some input is a table, the table `join` returns (the one
+the row loop runs over, and whose `on` columns become the key columns of the result) is the output
+of the final sort — so by `sorted_by_key` its rows are in non-decreasing key order, for every
+combination of inputs, defaults and expiry -/
+theorem join_output_sorted (inputs : List (String × PInput)) (on : List String)
+    (defaults : List (String × Cell)) (ds : Table)
+    (ht : inputs.any (fun kv => kv.2.isTable) = true)
+    (h : pdJoin inputs on defaults = some (.ok ds)) :
+    ∃ t : Table, t.sortOn on = .ok ds := by
+  simp only [pdJoin] at h
+  split at h
+  · simp at h
+  · rename_i seq hseq
+    split at h
+    · -- no table among the inputs: excluded by `ht`
+      rename_i hemp
+      exfalso
+      -- `_item` keeps tables tables: `seq` has a table wherever `inputs` has one
+      have hlen : ∀ (l : List (String × PInput)) (out : List (String × PInput)),
+          l.mapM (fun kv => match kv.2 with
+            | .table d => (item d kv.1 on).map fun d' => (kv.1, PInput.table d')
+            | .scalar c => Except.ok (kv.1, PInput.scalar c)) = .ok out →
+          l.any (fun kv => kv.2.isTable) = true → out.any (fun kv => kv.2.isTable) = true := by
+        intro l
+        induction l with
+        | nil => intro out _ h2; simp at h2
+        | cons x xs ih =>
+          intro out h1 h2
+          simp only [List.mapM_cons, bind, Except.bind] at h1
+          split at h1
+          · cases h1
+          · rename_i y hy
+            split at h1
+            · cases h1
+            · rename_i ys hys
+              simp only [pure, Except.pure, Except.ok.injEq] at h1
+              subst h1
+              simp only [List.any_cons, Bool.or_eq_true] at h2 ⊢
+              rcases h2 with h2 | h2
+              · left
+                obtain ⟨k, v⟩ := x
+                cases v with
+                | scalar c => simp [PInput.isTable] at h2
+                | table d =>
+                  simp only [Except.map] at hy
+                  split at hy
+                  · cases hy
+                  · simp only [Except.ok.injEq] at hy; subst hy; rfl
+              · right; exact ih ys hys h2
+      have hany := hlen inputs seq hseq ht
+      rw [List.any_eq_true] at hany
+      obtain ⟨kv, hkv, hkt⟩ := hany
+      obtain ⟨k, v⟩ := kv
+      cases v with
+      | scalar c => simp [PInput.isTable] at hkt
+      | table d =>
+        simp only [List.isEmpty_iff, List.filterMap_eq_nil_iff] at hemp
+        have := hemp (k, .table d) hkv
+        simp at this
+    · split at h
+      · split at h
+        · exact ⟨_, by simpa using h⟩
+        · simp at h
+        · simp at h
+        · simp at h
+      · simp at h
+      · simp at h
+      · simp at h
+
 /-! ## which keys survive: two table inputs -/
 
 /-- **join_keys (two tables)**: `_join_dictable_with_defaults` of two tables is their inner join,
